@@ -177,3 +177,16 @@ Lemma u_escape_impl_refuted_witness :
   unescape sp_combine (u_escape 131072 ++ [34]) = Some (encode 65536, []) /\
   unescape sp_spec (u_escape 131072 ++ [34]) = Some (encode 131072, []) /\ encode 65536 <> encode 131072.
 Proof. split; [reflexivity|split; [reflexivity|discriminate]]. Qed.
+
+(* ------------------------------------------------------------------ code point lists *)
+Theorem string_value_escape comb cps : Forall (fun c => scalar c = true) cps ->
+  string_value comb (escape (flat_map encode cps) ++ [34]) = Some (flat_map encode cps).
+Proof.
+  intros H. unfold string_value. rewrite unescape_escape_any.
+  unfold valid_utf8. now rewrite (decode_all_encode cps H _ (le_n _)).
+Qed.
+
+(* non-vacuity: quote, backslash, controls, DEL, two-, three- and four-byte characters *)
+Example ex_string : string_value sp_combine (escape (flat_map encode [34; 92; 0; 10; 31; 127; 233; 8364; 65533; 128512; 131072; 1114111]) ++ [34])
+  = Some (flat_map encode [34; 92; 0; 10; 31; 127; 233; 8364; 65533; 128512; 131072; 1114111]).
+Proof. vm_compute. reflexivity. Qed.
